@@ -1,6 +1,7 @@
 /- Line-protocol driver for the C08 model (primitive text forms). -/
 import Driver.Util
 import SpyneModel.Prim
+import SpyneModel.Binary
 import SpyneModel.Generated.Facts08
 open Lean SpyneModel Driver
 
@@ -30,6 +31,13 @@ def getTime (a : Array Json) (o : Nat) : Time :=
   let n (i : Nat) : Nat := match a[i]? with | some j => (j.getNat?.toOption.getD 0) | none => 0
   ⟨n o, n (o+1), n (o+2), n (o+3)⟩
 
+def getNats (j : Json) (k : String) : List Nat :=
+  (getArr j k).toList.map (fun c => c.getNat?.toOption.getD 0)
+def natsJson (l : List Nat) : Json := Json.arr (l.map (fun (n : Nat) => (n : Json))).toArray
+def optJson {α} (f : α → Json) : Option α → Json
+  | some a => Json.mkObj [("ok", f a)]
+  | none => Json.mkObj [("fault", Json.str "Client.ValidationError")]
+
 def step (j : Json) : Json :=
   match getStr j "op" with
   | "int.to" => Json.mkObj [("ok", textJson (intToText (getBigInt j "v")))]
@@ -50,6 +58,10 @@ def step (j : Json) : Json :=
   | "datetime.from" => outJson dtJson (dateTimeFromText F (getText j "s"))
   | "dur.to" => Json.mkObj [("ok", textJson (durToText F (getBigInt j "v")))]
   | "dur.from" => outJson bigIntJson (durFromText F (getText j "s"))
+  | "hex.to" => Json.mkObj [("ok", textJson (hexenc (getNats j "v")))]
+  | "hex.from" => optJson natsJson (hexdec (getText j "s"))
+  | "b64.to" => Json.mkObj [("ok", textJson (b64enc (getBool j "url") (getNats j "v")))]
+  | "b64.from" => optJson natsJson (b64dec (getBool j "url") (getText j "s"))
   | op => Json.mkObj [("driver_error", Json.str s!"unknown op {op}")]
 
 def main : IO Unit := Driver.run step
